@@ -1,4 +1,4 @@
-"""Citation-kind alphabet: 31 letters, each a snippet from which the real extractor builds the object."""
+"""Citation-kind alphabet: 32 letters, each a snippet from which the real extractor builds the object."""
 
 ALPHA = [
     # name, snippet, class name, index among citations of that class in the snippet
@@ -22,6 +22,7 @@ ALPHA = [
     ("S_Cr", "10 Cranch, at 55.", "ShortCaseCitation", 0),  # another ambiguous reporter string, same volume as FH
     ("S_P", "585 U.S., at 5.", "ShortCaseCitation", 0),  # short form of the placeholder-page case P
     ("S_far", "30 F.2d, at 900.", "ShortCaseCitation", 0),  # short form of C whose own page is far beyond C's first page
+    ("S_ser", "30 F.3d at 301.", "ShortCaseCitation", 0),  # C's volume in another series of the same reporter (F.2d / F.3d)
     ("SU_B", "Delta, supra, at 201.", "SupraCitation", 0),  # unique name -> B
     ("SU_amb", "Alpha, supra, at 5.", "SupraCitation", 0),  # A and C share Alpha
     ("SU_unk", "\u0417\u0435\u0442\u0430, supra.", "SupraCitation", 0),  # a name (in Cyrillic) that no cited case bears
